@@ -38,11 +38,9 @@ def kind_of(m):
 def known_encode(run, m, got, want, case):
     k = kind_of(m)
     if k == 'rsp/24' and len(m['values']) >= 1:
-        run.region('fifo-count')
         if len(got) == len(want) and got[:3] == want[:3] and got[5:] == want[5:]:
             return run.known('fifo-count', 'ReadFifoQueueResponse encodes the FIFO count field as 2N (bytes) instead of N', case)
     if k == 'rsp/20' and len(m['records']) >= 1:
-        run.region('filerecord-subresponse-layout')
         if len(got) == len(want):
             hdr, pos = set(), 2
             for data in m['records']:
@@ -57,21 +55,33 @@ def known_encode(run, m, got, want, case):
 def known_decode(run, m, obj, exc, case):
     k = kind_of(m)
     if k == 'rsp/24' and len(m['values']) >= 1:
-        run.region('fifo-count')
         if obj is not None and type(obj) is A.expected_class(m):
             n = len(m['values'])
             if list(obj.values) == list(m['values'])[:max(0, n - 4)]:
                 return run.known('fifo-count', 'ReadFifoQueueResponse.decode reads count-4 values from a spec-conformant PDU', case)
     if k == 'rsp/17':
-        run.region('slaveid-identifier')
         if obj is not None and type(obj) is A.expected_class(m):
             if bytes(obj.identifier) == m['identifier'] + bytes([m['run']]) and bool(obj.status) == (m['run'] == 0xFF):
                 return run.known('slaveid-identifier', 'ReportSlaveIdResponse.decode includes the run-indicator byte in identifier', case)
     if k == 'req/8/0' and len(m['data']) != 1:
-        run.region('diag-request-multiword')
         if isinstance(exc, struct.error):
             return run.known('diag-request-multiword', 'server decoder raises struct.error for a diagnostic request with != 1 data word', case)
     return False
+
+
+def regions_of(m):
+    """known-finding regions a case lies in, by input predicate only"""
+    k = kind_of(m)
+    out = []
+    if k == 'rsp/24' and len(m['values']) >= 1:
+        out.append('fifo-count')
+    if k == 'rsp/20' and len(m['records']) >= 1:
+        out.append('filerecord-subresponse-layout')
+    if k == 'rsp/17':
+        out.append('slaveid-identifier')
+    if k == 'req/8/0' and len(m['data']) != 1:
+        out.append('diag-request-multiword')
+    return out
 
 
 # ----------------------------------------------------------------- the two monitors
@@ -176,6 +186,11 @@ def both(run, m, sample_class=None):
         res = fn(run, m)
         if res is None:
             continue
+        regs = regions_of(m)
+        for slug in regs:
+            run.region(slug)
+        if not regs:
+            run.count('clean_region_cases')
         run.case(fp_of(op, m), nontrivial(m),
                  sample={'op': op, 'kind': kind_of(m), 'message': m, 'pdu': S.encode(m).hex()[:120],
                          'verdict': 'agrees' if res else 'differs'},
